@@ -124,6 +124,25 @@ class STIXdatetime(dt.datetime):
             precision_constraint=self.precision_constraint,
         )
 
+    def __reduce_ex__(self, protocol):
+        # Same for copy.copy() and pickle: datetime's own reduction would
+        # rebuild the value with default (ANY) precision, so that a copied or
+        # unpickled object no longer serializes its timestamps as required.
+        plain = dt.datetime(
+            self.year, self.month, self.day, self.hour, self.minute,
+            self.second, self.microsecond, self.tzinfo, fold=self.fold,
+        )
+        return (
+            _restore_stixdatetime,
+            (plain, self.precision, self.precision_constraint),
+        )
+
+
+def _restore_stixdatetime(dttm, precision, precision_constraint):
+    return STIXdatetime(
+        dttm, precision=precision, precision_constraint=precision_constraint,
+    )
+
 
 def deduplicate(stix_obj_list):
     """Deduplicate a list of STIX objects to a unique set.
